@@ -260,7 +260,9 @@ def clause(cond, post, cid):
 
 
 def small_clause(name):
-    return '        r matches Some(bs) ==> bs_small(bs),  // @' + name + '#small'
+    # the representation invariant every comparator establishes: a well formed interval with small numbers (the precondition of every
+    # operation on ranges; an obligation of every property about those operations, since their quantifier is "ranges obtained from parse")
+    return '        r matches Some(bs) ==> bs_wf(bs),  // @' + name + '#wf\n        r matches Some(bs) ==> bs_small(bs),  // @' + name + '#small'
 
 
 def grid_partial(P='partial'):
